@@ -101,15 +101,25 @@ def null_text(ctx, lexpr):
 def rescan(ctx, lexpr):
     from .. import cfg, common, facts as F
     r = ctx.rule("R-RESCAN", "on the leading-digit path the token goes to the numeric sub-parser unconditionally")
-    f = lexpr.fn("parse::Parser::<R>::parse_token")
-    if f is None:
-        r.anchor_missing("parse_token")
+    # the function that re-scans a token: it reads a symbol and builds a slice sub-parser (parse_token, or the
+    # helper its digit arm was moved into)
+    cands = []
+    for g in lexpr.fns:
+        if g.kind == "closure" or not g.file.endswith("parse/mod.rs"):
+            continue
+        sb = [bi for bi, t in g.calls() if t["callee"].get("path", "").endswith("from_slice_custom")]
+        sy = [bi for bi, t in g.calls() if t["callee"].get("path", "").endswith("Parser::<R>::parse_symbol")]
+        if sb and sy:
+            cands.append((g, sb))
+    if not cands:
+        r.anchor_missing("a function that reads a symbol and builds a sub-parser (Parser::from_slice_custom)")
         return
-    subs = [bi for bi, t in f.calls() if t["callee"].get("path", "").endswith("Parser::<parse::read::SliceRead<'a>>::from_slice_custom")
-            or t["callee"].get("path", "").endswith("from_slice_custom")]
-    if not subs:
-        r.anchor_missing("sub-parser construction (Parser::from_slice_custom) in parse_token")
-        return
+    for f, subs in cands:
+        _rescan_fn(r, f, subs)
+
+
+def _rescan_fn(r, f, subs):
+    from .. import cfg, facts as F
     for sb in subs:
         # walk back from the sub-parser construction to the parse_symbol call that produced the token text:
         # no data-dependent branch (switch) other than the `?` on parse_symbol may lie in between
